@@ -210,13 +210,19 @@ Definition papply (i : N) (p : prim) (s : st) : st :=
     end
   | PChkPut n cid x =>
     (* ensureCheckTxn since e956cb5: a check that leaves its service (another ServiceID) bumps the
-       service it leaves, under the name the check row carries (all services of the node when it was
-       node-level) *)
+       service it leaves, under the name the check row carries and (77429de) under that service's
+       current name (all services of the node when it was node-level) *)
     let s0 := match checks s !! (n, cid) with
               | Some o =>
                 if bool_decide (c_svc o = c_svc x) then s
                 else if bool_decide (c_svc o = "") then bump_names (names_of (svcs_of_node n s)) i s
-                     else ibump (k_svc (c_svcname o)) i s
+                     else
+                       (* since 77429de: also the CURRENT name of the service it leaves *)
+                       let s2 := ibump (k_svc (c_svcname o)) i s in
+                       match services s !! (n, c_svc o) with
+                       | Some sv => if bool_decide (sv_name sv = c_svcname o) then s2 else ibump (k_svc (sv_name sv)) i s2
+                       | None => s2
+                       end
               | None => s
               end in
     let s1 := if bool_decide (c_svc x = "") then bump_names (names_of (svcs_of_node n s0)) i s0
